@@ -6,12 +6,14 @@ package objects
 
 //@ func ValidateStrListBytes
 //@   props C17
+//@   modifies nothing
 //@   ensures err == nil ==> 4 <= result0 && result0 <= len(b)
 //@   loop 1 invariant 4 <= offset && offset <= n && n == len(b) && 0 <= i
 //@   loop 1 decreases count - i
 
 //@ func ValidateBlockBytes
 //@   props C17
+//@   modifies nothing
 //@   loop 1 invariant 4 <= off && off <= len(b) && 0 <= i
 //@   loop 1 decreases n - i
 
